@@ -8,6 +8,7 @@ import typing
 
 import h2.config
 import h2.connection
+import h2.errors
 import h2.events
 import h2.exceptions
 import h2.settings
@@ -402,6 +403,18 @@ class HTTP2Connection(ConnectionInterface):
                     self._max_streams -= 1
 
     def _response_closed(self, stream_id: int) -> None:
+        # If the request or response was abandoned part way through then the
+        # stream is still open as far as the server is concerned. Reset it
+        # before the slot is handed to another request.
+        stream = self._h2_state.streams.get(stream_id)
+        if stream is not None and not stream.closed:
+            try:
+                self._h2_state.reset_stream(
+                    stream_id, error_code=h2.errors.ErrorCodes.CANCEL
+                )
+            except h2.exceptions.ProtocolError:  # pragma: nocover
+                pass
+
         self._max_streams_semaphore.release()
         del self._events[stream_id]
         with self._state_lock:
